@@ -45,6 +45,14 @@ def make_scratch(root) -> Path:
 
 
 def apply_variant(v, scratch: Path):
+    if v.get("patch"):
+        pf = VERIF / v["patch"]
+        if not pf.exists():
+            return f"patch file {v['patch']} missing"
+        r = subprocess.run(["patch", "-p1", "-s", "--no-backup-if-mismatch", "-i", str(pf)], cwd=scratch, capture_output=True, text=True)
+        if r.returncode != 0:
+            return "patch does not apply: " + (r.stdout + r.stderr).strip()[:200]
+        return None
     edits = v.get("edits") or [{"file": v["file"], "old": v["old"], "new": v["new"]}]
     for e in edits:
         p = scratch / e["file"]
